@@ -205,12 +205,25 @@ Definition out_eqb (a b : out) : bool :=
     1  F-08d  apply through the Var of a variadic fn (eager)
     2  F-08e  recur into the variadic arity with a last value that is neither nil nor a finite
               ISeq (a vector, an infinite lazy seq)
-    The repaired findings F-08a/b/c have no tag: the model follows the source through the
+    8  F-08c  the `arities` attribute of a partial loses 0: the outermost partial supplies exactly
+              as many arguments as one of the (correct) arity counts of its callable, and a larger
+              count or :rest exists
+    The repaired findings F-08a/b have no tag: the model follows the source through the
     regenerated flags, so a reverted repair shows as impl = model <> spec with no open finding
     to explain it. *)
+Definition arities_defect (s : sig) (ps : list N) : bool :=
+  match rev ps with
+  | [] => false
+  | p :: before =>
+      let ints := shift_counts (all_counts s) (n_partial (rev before)) in
+      existsb (Nat.eqb (nat_of p)) ints
+      && (is_variadic s || existsb (fun a => nat_of p <? a) ints)
+  end.
+
 Definition tag (c : case) : N :=
   match c with
   | CCall fx vr _ _ (ShApply true _ _) => if is_variadic (mk_sig fx vr) then 1 else 0
   | CRecur fx vr ar vs => if recur_safe (arity_of_code ar) vs then 0 else 2
+  | CArities fx vr ps => if arities_defect (mk_sig fx vr) ps then 8 else 0
   | _ => 0
   end%N.
